@@ -140,6 +140,11 @@ func shortTypeName(t types.Type) string {
 
 // typeID returns a stable (per universe) positive id of a Go type for dynamic type tests.
 func (u *Universe) typeID(t types.Type) int {
+	t = types.Unalias(t)
+	if b, ok := t.(*types.Basic); ok {
+		// rune/byte are spellings of int32/uint8: one dynamic type
+		t = types.Typ[b.Kind()]
+	}
 	k := types.TypeString(t, nil)
 	if id, ok := u.typeIDs[k]; ok {
 		return id
@@ -153,6 +158,9 @@ func (u *Universe) typeID(t types.Type) int {
 // uniqName: SMT-safe short name of a Go type; two different types with the same short name
 // (sync.Mutex and internal/sync.Mutex) get distinct names.
 func (u *Universe) uniqName(t types.Type) string {
+	if b, ok := types.Unalias(t).(*types.Basic); ok {
+		t = types.Typ[b.Kind()] // rune/byte are spellings of int32/uint8
+	}
 	if u.nameOf == nil {
 		u.nameOf, u.nameUsed = map[string]string{}, map[string]string{}
 	}
